@@ -122,6 +122,20 @@ def evaluate(case, info=None):
         status, res, _ = progcheck.run_tool(processing.minimize_whitespace_line_differences, src, other)
         out = res[0] if status == "ok" else None
         reference = other  # the result must keep the structure of the NEW text
+    elif case["stage"] == "wrap_minimize":
+        # what format_code does last: the text is re-wrapped (here by black itself, which keeps the tree by its own
+        # guarantee) and the result is merged with the original by minimize_whitespace_line_differences
+        processing = env.mod("processing")
+        try:
+            import black
+            other = black.format_str(src, mode=black.Mode(line_length=case.get("arg") or 100))
+        except Exception:
+            return []
+        if not parses(other) or norm_dump(other) != norm_dump(src) or literal_multiset(other) != literal_multiset(src):
+            return []
+        status, res, _ = progcheck.run_tool(processing.minimize_whitespace_line_differences, src, other)
+        out = res[0] if status == "ok" else None
+        reference = other
     elif case["stage"] == "substitute_strings":
         processing = env.mod("processing")
         other = case["other"]
@@ -187,7 +201,7 @@ def backslash_continued_literal(case):
 
 PREDICATES = {"tab_in_literal": tab_in_literal, "trailing_blank_in_literal": trailing_blank_in_literal,
               "blank_run_in_literal": blank_run_in_literal, "backslash_continued_literal": backslash_continued_literal}
-HAZARDS = [("F-C11-01", tab_in_literal), ("F-C11-02", trailing_blank_in_literal), ("F-C11-03", blank_run_in_literal), ("F-C11-04", backslash_continued_literal)]
+HAZARDS = [("F-C11-01", tab_in_literal), ("F-C11-02", trailing_blank_in_literal), ("F-C11-03", blank_run_in_literal)]
 
 
 IMPORT_BLOCKS = [
@@ -226,6 +240,26 @@ def perturb(draw, src):
     return "\n".join(out)
 
 
+TWIN_STRINGS = ['"""Dear customer,\n\nyour order has shipped.\n"""', '"""Dear customer,\nyour order has shipped.\n"""', '"""\n\n"""', '"""\n"""',
+                '"""end of part one\n\n"""', '"""end of part one\n"""', "'''a\n\nb\n'''", "'''a\nb\n'''", '"""x\n\n\ny"""', '"""\n\n\n"""',
+                '"""end of part two\n\n\n"""', '"""one line"""']
+TWIN_FORMS = ["send(customer,{s})", "show(0,   {s})", "show({s},0)", "show([{s},0])", "show( {s} , {s2} )",
+              "send(customer, {s}, 'and a long trailing argument that pushes the line over the limit of sixty characters')",
+              "if customer:\n    send(customer,{s})"]
+
+
+@st.composite
+def twin_source(draw):
+    """Neighbouring statements with the same code around multi-line strings that differ only in their empty lines."""
+    form = draw(st.sampled_from(TWIN_FORMS))
+    lines = []
+    for _ in range(draw(st.integers(2, 4))):
+        if draw(st.integers(0, 3)) == 0:
+            form = draw(st.sampled_from(TWIN_FORMS))
+        lines.append(form.replace("{s2}", draw(st.sampled_from(TWIN_STRINGS))).replace("{s}", draw(st.sampled_from(TWIN_STRINGS))))
+    return "\n".join(lines) + "\n"
+
+
 def plan(tier, seed):
     nsh = 16
     q = tier == "quick"
@@ -237,9 +271,11 @@ def run_shard(spec):
     pool = [z for z in texts.ZOO if z.strip()] + corpus.repo_examples()[::5] + IMPORT_BLOCKS * 5
 
     def go(data):
-        kind = data.draw(st.sampled_from(["literal", "literal", "literal", "pool", "rulefree"]))
+        kind = data.draw(st.sampled_from(["literal", "literal", "literal", "pool", "rulefree", "twins"]))
         if kind == "literal":
             src = data.draw(texts.literal_source())
+        elif kind == "twins":
+            src = data.draw(twin_source())
         elif kind == "pool":
             src = data.draw(st.sampled_from(pool))
         else:
@@ -247,8 +283,10 @@ def run_shard(spec):
             src = "".join(f"print({l})\n" for l in lits)
         stage = data.draw(st.sampled_from(["prefix", "prefix", "line_lengths", "line_lengths", "import_spacing", "import_spacing", "rmspace", "blank_lines",
                                            "minimize", "substitute_strings", "format_code" if kind == "rulefree" else "prefix"]))
+        if kind == "twins":
+            stage = data.draw(st.sampled_from(["line_lengths", "wrap_minimize", "wrap_minimize", "format_code"]))
         case = {"stage": stage, "src": src}
-        if stage in ("line_lengths", "format_code"):
+        if stage in ("line_lengths", "format_code", "wrap_minimize"):
             case["arg"] = data.draw(st.sampled_from([60, 79, 100, 120]))
         if stage == "minimize":
             case["other"] = perturb(data.draw, src)
@@ -259,7 +297,7 @@ def run_shard(spec):
                     case["other"] = ast.unparse(ast.parse(src)) + "\n"
             except (SyntaxError, ValueError):
                 return
-        hit = [fid for fid, pred in HAZARDS if pred(case)]
+        hit = [fid for fid, pred in HAZARDS if pred(case) and not (stage == "wrap_minimize" and fid == "F-C11-03")]
         if hit:
             # known findings: literals with raw tabs / trailing blanks / blank-line runs / backslash continuation are
             # changed by the text-level stages; such inputs are excluded (counted) so that the search goes on
